@@ -112,6 +112,57 @@ def _instantiate(fa: Term, witnesses: list, sa: SetAlg) -> list:
     return out
 
 
+def _quantifier_conds(c: Term):
+    """`any(e for x in S if c for y in T ...)` as a guard is "for SOME x in S with c, some y in T ...: e" (the form search loops produce);
+    its negation is the universal form.  Returns the replacement conditions or None."""
+    neg = False
+    while c[0] == "not":
+        neg = not neg
+        c = c[1]
+    if c[0] == "truth" and c[1][0] in ("any", "all"):
+        c = c[1]
+    if c[0] not in ("any", "all") or len(c) < 2 or not is_term(c[1]) or c[1][0] != "comp" or c[1][1] == "dict":
+        return None
+    comp = c[1]
+    elt, gens = comp[2], comp[3]
+    if not gens or (isinstance(elt, tuple) and elt and elt[0] == "%payload"):
+        return None
+    body = elt if c[0] == "any" else ("not", elt)
+    exists = (c[0] == "any") != neg
+    seq: list = []
+    for pat, it, conds in gens:
+        seq.append(("iter-elem", pat, it))
+        seq.extend(conds)
+    seq.append(body)
+    # the witnesses get names of their own: the quantified atom itself is kept next to this form and must keep its bound variables
+    fresh = {v: ("var", str(v[1]) + "'") for g in gens for v in _pat_vars(g[0])}
+    seq = [subst(x, fresh) for x in seq]
+    if exists:
+        return seq
+    first = seq[0]
+    return [("forall-not", first[1], first[2], tuple(seq[1:]))]
+
+
+def expand_quantifiers(paths: list) -> list:
+    from dataclasses import replace
+
+    out = []
+    for p in paths:
+        conds: list = []
+        changed = False
+        for c in p.conds:
+            r = _quantifier_conds(c)
+            if r is None:
+                conds.append(c)
+            else:
+                # the quantified atom stays (paths that keep it nested inside loop bodies refer to it as an atom); its witness form is added
+                conds.append(c)
+                conds.extend(r)
+                changed = True
+        out.append(replace(p, conds=tuple(conds)) if changed else p)
+    return out
+
+
 STRUCTURAL_HEADS = {"comp", "accum", "ite", "cases", "tuplelit", "listlit", "setlit", "dictlit", "bigunion", "concat", "mut", "after-iteration",
                     "kv", "orelse", "setof", "copyof"}
 STRUCTURAL_CALLS = {"list", "tuple", "sorted", "set", "frozenset", "dict", "iter", "reversed", "chain", "from_iterable"}
@@ -176,9 +227,11 @@ def joint_guard(a: "Outcome", b: "Outcome", sa: SetAlg):
     return f_and(a.guard, b.guard, *[norm_formula(x) for x in ax])
 
 
-def evaluate(model: Model, qname: str, mk_ev: Callable[[], Evaluator], types: dict[str, Any], self_type: Any = None, func: Func | None = None):
+def evaluate(model: Model, qname: str, mk_ev: Callable[[], Evaluator], types: dict[str, Any], self_type: Any = None, func: Func | None = None,
+             recurse_as=()):
     f = func if func is not None else model.func(qname)
     ev = mk_ev()
+    ev.recurse_as = set(recurse_as)
     args = {}
     for k, t in types.items():
         v = ("var", k)
@@ -197,7 +250,16 @@ def compare_with_reference(model: Model, impl_q: str, ref_q: str, types: dict[st
                            infeasible: Callable[[Path], bool] | None = None, impl_func: Func | None = None, ref_func: Func | None = None):
     """Return (impl_func, verdict, detail, sample) with verdict in PROVEN / REFUTED / UNKNOWN."""
     f, ev_i, pi = evaluate(model, impl_q, mk_ev, types, func=impl_func)
-    _, ev_r, pr = evaluate(model, ref_q, mk_ev, ref_types or types, func=ref_func)
+    _, ev_r, pr = evaluate(model, ref_q, mk_ev, ref_types or types, func=ref_func, recurse_as=(f.qname,))
+    import ast as _ast
+
+    if f.node.returns is not None and _ast.unparse(f.node.returns) == "bool":
+        # a predicate: `return <boolean expression>` is the same as testing it and returning True / False (search loops vs any / all)
+        from .symeval import bool_paths
+        pi, pr = bool_paths(pi), bool_paths(pr)
+    from .symeval import resolve_ites
+    pi, pr = resolve_ites(pi), resolve_ites(pr)
+    pi, pr = expand_quantifiers(pi), expand_quantifiers(pr)
     if infeasible is not None:
         pi = [p for p in pi if not infeasible(p)]
         pr = [p for p in pr if not infeasible(p)]
@@ -210,6 +272,7 @@ def compare_with_reference(model: Model, impl_q: str, ref_q: str, types: dict[st
               "implementation": [show(o.value)[:260] if not isinstance(o.value, str) else "raise " + o.value for o in oi[:3]]}
     if any(o.unknown for o in orf):
         return f, "UNKNOWN", "the reference definition itself is outside the evaluator's idioms", sample
+    pending = None  # first recognition failure (UNKNOWN); an operand-level difference on ANY jointly satisfiable pair of paths outranks it
     for a in oi:
         for b in orf:
             if a.kind == b.kind and a.value == b.value:
@@ -217,11 +280,15 @@ def compare_with_reference(model: Model, impl_q: str, ref_q: str, types: dict[st
             try:
                 w = satisfy(joint_guard(a, b, sa))
             except TooManyAtoms:
-                return f, "UNKNOWN", "guard comparison exceeds the case-split budget", sample
+                if pending is None:
+                    pending = (f, "UNKNOWN", "guard comparison exceeds the case-split budget", sample)
+                continue
             if w is None:
                 continue
             if a.unknown:
-                return f, "UNKNOWN", f"a path of the implementation uses an idiom outside the evaluator (line {a.path.line}): {ev_i.unknowns[:2]}", sample
+                if pending is None:
+                    pending = (f, "UNKNOWN", f"a path of the implementation uses an idiom outside the evaluator (line {a.path.line}): {ev_i.unknowns[:2]}", sample)
+                continue
             verdict = "REFUTED"
             if a.kind != b.kind:
                 d = f"the implementation {'raises ' + str(a.value) if a.kind == 'raise' else 'returns'} where the definition {'raises ' + str(b.value) if b.kind == 'raise' else 'returns a value'}"
@@ -235,7 +302,13 @@ def compare_with_reference(model: Model, impl_q: str, ref_q: str, types: dict[st
                     verdict = "UNKNOWN"
                     d = "the routine is written in an idiom the normaliser cannot relate to the definition's: " + d
             cond = show_formula(joint_guard(a, b, sa))
-            return f, verdict, f"{d}  [on inputs with: {cond[:300]}] (line {a.path.line})", sample
+            res = (f, verdict, f"{d}  [on inputs with: {cond[:300]}] (line {a.path.line})", sample)
+            if verdict == "REFUTED":
+                return res
+            if pending is None:
+                pending = res
+    if pending is not None:
+        return pending
     # coverage: every reference *return* path must be reachable through some implementation path with the same outcome
     for b in orf:
         if not any(a.kind == b.kind and a.value == b.value for a in oi):
